@@ -24,12 +24,12 @@ m = {
     "not_applicable": NOT_APPLICABLE,
 }
 EXT = (" Build-phase extensions (DESIGN.md 11.5): the workload was widened after every seeded property-breaking change the check first missed "
-       "(about 300 confirmed changes under /verif/seeded are re-run with tools/seedtargets.sh); generic devices shared by the checks: 4-thread in-process "
+       "(377 confirmed changes from 19 rounds under /verif/seeded are re-run with tools/seedtargets.sh); generic devices shared by the checks: 4-thread in-process "
        "jobs of the random part (SHARED lists, Ctx.threaded), history priming before monitored calls, current-value / same-text arguments, "
        "the single-URL invariant applied to every URL of random operation trees (parts named 'optree'), values crossing the compiled writer's 8 KiB "
        "buffer sizes, copies/pickles of checked objects, typed arguments (str/int/float subclasses incl. ones whose own str()/format() differ, Mapping "
        "flavours), self-referential and escape-rich receivers, look-alike schemes / hosts / zone ids, caller-owned containers changed after the call, "
-       "a monitor on replaced _cache dicts, role-split thread loops with a blocked-thread verdict and configuration-survives trials (C20).")
+       "a monitor on replaced _cache dicts, role-split thread loops with a blocked-thread verdict, configuration-survives trials, fresh-interpreter first-use trials and signal trials (C20), pre-empted first reads (C08).")
 for c in CHECKS:
     pid = c["property_id"]
     c = dict(c, text=c["text"] + EXT)
